@@ -146,7 +146,7 @@ func opBaseFee(pc *uint64, interpreter *EVMInterpreter, callContext *callCtx) ([
 
 func opBlobHash(pc *uint64, interpreter *EVMInterpreter, scope *callCtx) ([]byte, error) {
 	index := scope.stack.peek()
-	index.SetBytes32([]byte{})
+	index.Clear()
 	return nil, nil
 }
 
